@@ -94,6 +94,8 @@ pub struct OnceWorld {
     drops: Arc<Mutex<Vec<u32>>>,
     /// a caller reported a value that is not the stored one / an error that was not its own
     bad_report: bool,
+    /// atomic-operation log of the last poll proper
+    op_atoms: Option<Vec<async_lock::__verif::AtomicOp>>,
 }
 
 pub fn make(line: &str) -> Option<Box<dyn World>> {
@@ -105,6 +107,7 @@ pub fn make(line: &str) -> Option<Box<dyn World>> {
             cell: Some(Box::new(OnceCell::new())),
             drops: Arc::new(Mutex::new(Vec::new())),
             bad_report: false,
+            op_atoms: None,
         }));
     }
     None
@@ -222,7 +225,10 @@ impl World for OnceWorld {
                 let wk = waker(w);
                 let mut cx = Context::from_waker(&wk);
                 let fut = fu.f.as_mut().unwrap();
+                // only the poll itself goes into the atomic-operation log of this op
+                let _ = async_lock::__verif::take_atomic_log();
                 let r = catch_unwind(AssertUnwindSafe(|| fut.as_mut().poll(&mut cx)));
+                self.op_atoms.get_or_insert_with(Vec::new).extend(async_lock::__verif::take_atomic_log());
                 match r {
                     Err(_) => {
                         fu.done = true;
@@ -480,6 +486,10 @@ impl World for OnceWorld {
         }
         let _ = self.futs.values().map(|f| f.running).count();
         m
+    }
+
+    fn take_op_atoms(&mut self) -> Option<Vec<async_lock::__verif::AtomicOp>> {
+        self.op_atoms.take()
     }
 
     fn word_addrs(&self) -> Vec<usize> {
